@@ -21,6 +21,7 @@ def run(ctx):
     #    stream.Merge over 0..3 gated inputs with End / error at any position, cancelled consumer
     #    contexts and Close at any moment; judged by Trace_Merge
     bubble_tv(ctx, "TestMerge", "merge", "Trace_Merge", "tv.cfg", "merge", {"n": ctx.pick(120, 1200), "reps": ctx.pick(2, 4)}, silent=False)
+    bubble_tv(ctx, "TestMerge", "merge", "Trace_Merge", "tv.cfg", "merge perturbed", {"n": ctx.pick(120, 1200), "reps": ctx.pick(2, 4)}, silent=False, perturb=True)
     nil_values(ctx)
     ctx.assumptions += ["producers are sequential per input; the consumer of chans.Merge takes on demand (its pace is part of the schedule)"]
 
